@@ -431,7 +431,7 @@ def run_big(case, ctx):
     ranks for n <= 15/16, low shape ranks or root-capped random topologies (subtrees <= 12/13 leaves, n <= 28/32)."""
     rng = case_rng(case)
     tier = case["tier"]
-    mode = rng.choice(["uniform", "uniform", "low", "topo", "topo"])
+    mode = rng.choice(["uniform", "uniform", "low", "topo", "topo", "groups", "groups"])
     umax = 15 if tier == "quick" else 16
     cap = 12 if tier == "quick" else 13
     ctx.feature("big:" + mode)
@@ -447,9 +447,12 @@ def run_big(case, ctx):
         s = rng.randrange(min(S, 3000))
     else:
         # rank()/unrank() also walk the partitions of n up to the tree's own one: p(32) = 8 349, p(60) = 966 467
-        n = rng.randint(umax + 1, 28 if tier == "quick" else 32)
+        if mode == "groups":
+            par, n = grouped_topology(rng)
+        else:
+            n = rng.randint(umax + 1, 28 if tier == "quick" else 32)
+            par = random_topology(rng, n, n, cap=cap)
         S = ref_num_shapes(n)
-        par = random_topology(rng, n, n, cap=cap)
         ts, m = rebuild(rng, [(par, n)], n)
         _, kids = forest_of(ts, 0)
         root = [u for u in kids if u not in forest_of(ts, 0)[0]][0]
@@ -589,6 +592,53 @@ def rebuild(rng, trees, n, junk=None, unsquashed=False):
     m.nodes = [(NODE_IS_SAMPLE if u < n else 0, times[u], NULL, NULL, b"") for u in range(num_nodes)]
     m.edges = sorted(edges, key=sort_edges_key(m))
     return to_ts(m), m
+
+
+def grouped_topology(rng):
+    """A root with 4-5 sibling subtrees of IDENTICAL shape (cherries, 3-stars, 3-combs), optionally next to
+    extra leaves, with a random leaf labelling: the same-shape sibling groups are
+    where the label rank needs its multinomial bookkeeping (n = 8..24)."""
+    shape = rng.choice(["cherry", "cherry", "cherry", "star3", "comb3"])
+    k = {"cherry": 2, "star3": 3, "comb3": 3}[shape]
+    g = rng.randint(4, 5) if k == 2 else 4
+    extra = rng.choice([0, 0, 1, 2]) if g * k <= 10 else 0
+    n = g * k + extra      # 8..12: tskit's unrank is linear in the shape rank of every subtree, so keep them tiny
+    labels = list(range(n))
+    rng.shuffle(labels)
+    nxt = [n]
+    par = {}
+
+    def node():
+        nxt[0] += 1
+        return nxt[0] - 1
+
+    def sub(ls):
+        me = node()
+        if shape in ("cherry", "star3"):
+            for x in ls:
+                par[x] = me
+        elif shape == "comb3":
+            inner = node()
+            par[ls[0]] = me
+            par[inner] = me
+            par[ls[1]] = inner
+            par[ls[2]] = inner
+        else:
+            a, b = node(), node()
+            par[a] = me
+            par[b] = me
+            par[ls[0]] = a
+            par[ls[1]] = a
+            par[ls[2]] = b
+            par[ls[3]] = b
+        return me
+
+    group_parent = node()
+    for j in range(g):
+        par[sub(labels[j * k:(j + 1) * k])] = group_parent
+    for x in labels[g * k:]:
+        par[x] = group_parent
+    return par, n
 
 
 def random_topology(rng, n, first_internal, cap=None):
